@@ -58,7 +58,12 @@ pub fn one_run(
     let limit = std::env::var("VERIF_WATCHDOG_S")
         .ok()
         .and_then(|s| s.parse().ok())
-        .unwrap_or(30u64);
+        .unwrap_or(match tier {
+            // generous: a legitimately slow run on a loaded machine must not
+            // be mistaken for a call that never returns
+            Tier::Quick => 60u64,
+            Tier::Thorough => 180u64,
+        });
     let prop = spec.prop;
     let r = rt::on_fresh_thread_watchdog(
         mix(rs, 0x6e7_0001),
